@@ -24,6 +24,13 @@ def main():
     if pid not in P.CHECKS:
         print(f"unknown property {pid}")
         return 2
+    # development aid: tools_seeded.py holds this lock while a seeded patch is applied to /repo, so that
+    # concurrent check runs of other engineers wait for the clean tree (the file never exists otherwise)
+    lock = os.path.join(os.path.dirname(os.path.abspath(__file__)), "build", "repo.lock")
+    waited = 0
+    while os.path.exists(lock) and os.environ.get("VERIF_SEEDED") != "1" and waited < 3600:
+        time.sleep(5)
+        waited += 5
     t0 = time.time()
     if args.replay:
         return P.replay(pid, args.replay)
